@@ -47,6 +47,13 @@ class Undecided(Exception):
     pass
 
 
+class NotVerifiable(Undecided):
+    """verus / rustc rejected the rendered text (not a verification result); carries (message, primary line) pairs"""
+    def __init__(self, msg, errors):
+        super().__init__(msg)
+        self.errors = errors
+
+
 # --------------------------------------------------------------------------------------------------
 def parse_markers(text):
     """-> (clause_obls: {line: obl}, fn_obls: {fnline: obl}) ; lines are 1-based"""
@@ -162,10 +169,13 @@ def verus_unit(unit, workdir, text, tier):
     res = r['json']
     vr = (res or {}).get('verification-results')
     errs = [d for d in r['diags'] if d.get('level') == 'error' and not d.get('message', '').startswith('aborting due')]
+    def _prim_line(d):
+        sp = [x for x in d.get('spans', []) if x.get('is_primary')] or d.get('spans', [])
+        return sp[0].get('line_start') if sp else None
     if vr is None or vr.get('encountered-vir-error'):
         msg = '; '.join('%s (line %s)' % (d.get('message'), (d.get('spans') or [{}])[0].get('line_start')) for d in errs[:4])
-        raise Undecided('verus rejected the rendered unit %s (not a verification result): %s %s'
-                        % (unit.NAME, msg, ' '.join(r['raw'][:3])))
+        raise NotVerifiable('verus rejected the rendered unit %s (not a verification result): %s %s'
+                            % (unit.NAME, msg, ' '.join(r['raw'][:3])), [(d.get('message', ''), _prim_line(d)) for d in errs])
     obls = {}
     fn_lines = sorted(fnobl)
     for o in clause.values():
@@ -184,7 +194,8 @@ def verus_unit(unit, workdir, text, tier):
         if 'rlimit' in msg.lower() or 'resource limit' in msg.lower():
             raise Undecided('verus resource limit in unit %s: %s' % (unit.NAME, msg))
         if not any(k in msg for k in VERIFY_FAIL_MSGS):
-            raise Undecided('verus error that is not a verification failure in unit %s: %s' % (unit.NAME, msg))
+            raise NotVerifiable('verus error that is not a verification failure in unit %s: %s' % (unit.NAME, msg),
+                                [(dd.get('message', ''), _prim_line(dd)) for dd in errs if not any(k in dd.get('message', '') for k in VERIFY_FAIL_MSGS)])
         hit = []
         for s in d.get('spans', []):
             lab = (s.get('label') or '')
@@ -519,6 +530,129 @@ def _kani_playback(unitres, harness, timeout=900):
 
 
 # --------------------------------------------------------------------------------------------------
+# Quarantine: when rustc / Verus cannot even process ONE function of a unit after an edit (a method the stand-ins do not
+# have, a construct outside Verus' subset), that function keeps its contract but loses its body (external_body): its own
+# obligations and those of every function that calls it become UNREACHED (the properties they belong to are undecided),
+# while every other function of the unit is still verified.  Nothing is ever reported as discharged on that basis.
+# --------------------------------------------------------------------------------------------------
+def _fn_extent(text, e):
+    """(start offset of the signature line, offset of the body, end offset) of extracted function e in the rendered text"""
+    if e.key.startswith('helper:'):
+        pos = text.find(e.text)
+        if pos < 0:
+            return None
+        try:
+            sig, body = e.fn_parts()
+        except AnchorLost:
+            return None
+        return pos, pos + len(sig), pos + len(e.text)
+    body = getattr(e, 'body_final', None)
+    if not body:
+        return None
+    mk = text.find('// @FNOBL %s::body' % e.key)
+    if mk < 0:
+        return None
+    start = text.rfind('\n', 0, mk) + 1
+    b = text.find(body, start)
+    if b < 0:
+        return None
+    return start, b, b + len(body)
+
+
+def _quarantine(text, ctx, errors):
+    """-> (new text, {key: reason}) or None when some error lies outside every extracted function"""
+    exts = []
+    for e in ctx.extracted:
+        if getattr(e, 'sig_final', None) or e.key.startswith('helper:'):
+            x = _fn_extent(text, e)
+            if x:
+                exts.append((x, e))
+    hit = {}
+    for (msg, ln) in errors:
+        if ln is None:
+            return None
+        off = len('\n'.join(text.split('\n')[:ln - 1])) + 1
+        found = None
+        for (x, e) in exts:
+            if x[0] <= off <= x[2]:
+                found = (x, e)
+        if not found:
+            return None
+        hit.setdefault(found[1].key, (found[0], found[1], msg))
+    out = text
+    for key, (x, e, msg) in sorted(hit.items(), key=lambda kv: -kv[1][0][0]):
+        if '@QUARANTINED' in out[x[0]:x[2]]:
+            return None
+        out = out[:x[1]] + '{ unimplemented!() } // @QUARANTINED' + out[x[2]:]
+        out = out[:x[0]] + '#[verifier::external_body] ' + out[x[0]:]
+    return out, {k: v[2] for k, v in hit.items()}
+
+
+def _called_name(e):
+    m = FN_RE.search(getattr(e, 'sig_final', None) or e.text)
+    return m.group(1) if m else None
+
+
+def verus_unit_quarantining(unit, ctx, workdir, text, tier):
+    original = text
+    quarantined = {}
+    r = None
+    for _round in range(6):
+        try:
+            r = verus_unit(unit, workdir, text, tier)
+            break
+        except NotVerifiable as err:
+            q = _quarantine(text, ctx, err.errors)
+            if not q or not q[1] or any(k in quarantined for k in q[1]):
+                raise
+            text = q[0]
+            quarantined.update(q[1])
+    if r is None:
+        raise Undecided('unit %s: more than 6 rounds of quarantine' % unit.NAME)
+    if not quarantined:
+        return r, text
+    clause, fnobl = parse_markers(original)
+    have = {o['id']: o for o in r['obligations']}
+    fn_lines = sorted(fnobl)
+    for o in list(clause.values()) + list(fnobl.values()):
+        if o['id'] not in have:
+            prev = [ln for ln in fn_lines if ln <= o['line']]
+            fk = fnobl[prev[-1]]['id'][:-len('::body')] if prev else None
+            have[o['id']] = dict(o, fn_key=fk, status='unreached', backend='verus/z3', detail=[])
+            r['obligations'].append(have[o['id']])
+    # callers (transitively) of quarantined functions rely on a contract nobody verified
+    names = {k: _called_name(e) for e in ctx.extracted for k in [e.key] if k in quarantined}
+    dependent = {}
+    changed = True
+    bodies = {e.key: (getattr(e, 'body_final', None) or '') for e in ctx.extracted if getattr(e, 'sig_final', None)}
+    while changed:
+        changed = False
+        for k, body in bodies.items():
+            if k in quarantined or k in dependent:
+                continue
+            for qk, nm in list(names.items()):
+                if nm and re.search(r'(?:\b|\.)%s\s*(?:::<[^>]*>)?\(' % re.escape(nm), body):
+                    dependent[k] = qk
+                    e2 = [e for e in ctx.extracted if e.key == k][0]
+                    names[k] = _called_name(e2)
+                    changed = True
+                    break
+    for o in r['obligations']:
+        fk = o.get('fn_key')
+        if fk in quarantined or any(o['id'] == k or o['id'].startswith(k + '::') for k in quarantined):
+            qk = fk if fk in quarantined else [k for k in quarantined if o['id'] == k or o['id'].startswith(k + '::')][0]
+            o['status'] = 'unreached'
+            o['unreached'] = 'function %s is outside the verifier\'s reach on this tree (%s)' % (qk, quarantined[qk][:200])
+        elif fk in dependent and o['status'] == 'discharged':
+            o['status'] = 'unreached'
+            o['unreached'] = 'relies on the contract of %s, which could not be verified on this tree' % dependent[fk]
+    r['quarantined'] = quarantined
+    for k in quarantined:
+        ctx.probe_fns.pop(k, None)
+    return r, text
+
+
+# --------------------------------------------------------------------------------------------------
 def run_unit(name, tier, repo=None, cache=None, probes=True):
     repo = repo or REPO
     cache = cache or CACHE
@@ -554,7 +688,7 @@ def run_unit(name, tier, repo=None, cache=None, probes=True):
                 raise Undecided('structural check(s) of unit %s differ from the pinned text: %s (a textual difference is not evidence of a defect; '
                                 'the assumption it backs no longer holds as stated)' % (unit.NAME, ', '.join(badn)))
         if unit.BACKEND == 'verus':
-            r = verus_unit(unit, workdir, text, tier)
+            r, text = verus_unit_quarantining(unit, ctx, workdir, text, tier)
             tainted, counts = closure_taint(unit.NAME, ctx)
             for o in r['obligations']:
                 if o.get('fn_key') in tainted or any(o['id'] == k or o['id'].startswith(k + '::') for k in tainted):
@@ -842,6 +976,12 @@ def check_property(prop, tier, registry, seed=0):
                 if o['status'] == 'failed':
                     failed.append(o)
     undecided = [r for r in results if r['status'] != 'ok']
+    unreached = [o for o in mine + bounded if o['status'] == 'unreached']
+    if unreached:
+        why = sorted({o.get('unreached', '') for o in unreached})
+        undecided.append(dict(unit=unreached[0]['unit'], status='undecided', backend='verus',
+                              reason='%d obligation(s) of this property are not decided on this tree (%s): %s'
+                                     % (len(unreached), ', '.join(o['id'] for o in unreached[:4]) + (' ...' if len(unreached) > 4 else ''), '; '.join(why)[:500])))
     extra_checks = []
     hook_failures = []
     exec_fail = []
@@ -958,7 +1098,7 @@ def check_property(prop, tier, registry, seed=0):
         bounded_checks=[dict(id=o['id'], status=o['status'], statement=o['prose'], note='bounded stand-in, NOT counted in obligations') for o in bounded],
         functions_under_contract=[f for r in results for f in r.get('functions', [])],
         units=[dict(unit=r['unit'], backend=r['backend'], status=r['status'], solver_time_s=r.get('solver_time_s'), wall_s=r.get('unit_wall_s'),
-                    verus_verified_items=r.get('verus_verified'), cover_probes=r.get('probes'), rendered_file=r.get('file'),
+                    verus_verified_items=r.get('verus_verified'), cover_probes=r.get('probes'), rendered_file=r.get('file'), quarantined=r.get('quarantined'),
                     slowest=r.get('slowest'), notes=r.get('notes')) for r in results],
         solver_time_s=round(sum((r.get('solver_time_s') or 0) for r in results), 2),
         cover_probes=dict(emitted=sum(r.get('probes', {}).get('emitted', 0) for r in results),
